@@ -13,6 +13,9 @@ CONSTANTS
   ExtraSetsB <- MCExtraFew
   UseKinds <- MCUseKinds
   UFiles <- MCUFiles
+  ExtraUsers = FALSE
+  Revs <- MCRevNo
+  OrderMode = "all"
 INIT Init
 NEXT Next
 CHECK_DEADLOCK FALSE
